@@ -43,7 +43,7 @@ func raceNote(q *parReq, rep map[string]interface{}) {
 	if r.Replay != "" && !raceReplay {
 		return
 	}
-	capG, capM := r.N(16, 240), r.N(4, 40)
+	capG, capM := r.N(16, 120), r.N(4, 16)
 	if raceReplay {
 		capG, capM = 1000, 1000
 	}
@@ -220,7 +220,7 @@ func raceStream() {
 	r.Hit("race-child:canary-reported")
 	harnessOnly := 0
 	start := time.Now()
-	budget := time.Duration(r.N(20, 150)) * time.Second
+	budget := time.Duration(r.N(20, 40)) * time.Second
 	ran := 0
 	for _, it := range raceQueue {
 		if time.Since(start) > budget && !raceReplay {
